@@ -272,6 +272,22 @@ def check_misc(run, cx, cfg, only=None):
             if len(rem) != 1 or evs[0][0] != rem[0][0]:
                 bad = 'must first remove the dropped output\'s offset'
                 break
+            # fast path: no output is left after the removal -> nothing needs the backlog: buffer.clear() and return
+            # (what the general path does too: the fold over no offsets yields buffer.len(), every frame is popped)
+            emp = [(k, e) for k, e in evs if rp(e) == BT + 'is_empty' and e['args'][0] == ('ref', self_loc(fi)) and k > rem[0][0]]
+            if emp:
+                gone = dict(cond_facts(p)).get(('ret', emp[0][0]))
+                if gone == ('bool', True):
+                    rest = [(k, e) for k, e in evs if k > emp[0][0]]
+                    if not (p['end'] == 'return' and len(rest) == 1 and rp(rest[0][1]) == VD + 'clear' and rest[0][1]['args'][0] == ('ref', self_loc(bi))):
+                        bad = 'with no output left the backlog must be emptied (buffer.clear()) and nothing else: [%s]' % describe_path(p)[:300]
+                        break
+                    kinds.add('all-gone')
+                    continue
+                if gone != ('bool', False):
+                    bad = 'path not decided by frames_read.is_empty()'
+                    break
+                evs = [(k, e) for k, e in evs if k != emp[0][0]]
             # values().fold(..) or values().copied().fold(..)
             fsrc = folds[0][1]['args'][0] if len(folds) == 1 else None
             if fsrc is not None and fsrc[0] == 'ret' and p['events'][fsrc[1]]['kind'] == 'call' and p['events'][fsrc[1]]['name'] in ('copied', 'cloned') \
@@ -327,6 +343,7 @@ def check_misc(run, cx, cfg, only=None):
                 bad = 'path not decided by least > 0'
             if bad:
                 break
+        kinds.discard('all-gone')
         if not bad and kinds != {'nothing', 'done', 'trim', 'rebase'}:
             bad = 'lacks cases (has %s)' % sorted(kinds)
         run.check(bad is None, 'bus.drop_output', fn, cfg, bad or '', where=where(body))
